@@ -187,3 +187,12 @@ Definition key_eqb (a b : key) : bool := Nat.eqb (fst a) (fst b) && cfg_eqb (snd
 Definition cached_scores (cards : list nat) (d : list (list nat)) (sc : score) (maxs : nat)
   (calls : list key) : list (list (Qc * atom) * bool) * list (key * list (Qc * atom)) :=
   lru_run key (list (Qc * atom)) key_eqb (fun k => local_score cards d sc (fst k) (snd k)) maxs [] calls.
+
+(* ScoreCache(base, data, max_size).score(model) on a cache in state c: StructureScore.score with the cached
+   local_score, plus the structure prior of the wrapped score (after fix c25bc1d) *)
+Definition cached_total_score (cards : list nat) (d : list (list nat)) (sc : score) (maxs : nat)
+  (c : list (key * list (Qc * atom))) (nodes : list nat) (edges : list (nat * nat))
+  : list (Qc * atom) * list (key * list (Qc * atom)) :=
+  let (outs, c') := lru_run key (list (Qc * atom)) key_eqb (fun k => local_score cards d sc (fst k) (snd k)) maxs c
+                      (map (fun v => (v, preds edges v)) nodes) in
+  (fold_left (fun acc o => acc ++ fst o) outs [] ++ structure_prior sc (length nodes) (length edges), c').
